@@ -85,7 +85,9 @@ Definition balance_tables_ok (T : tables) : bool := ctx_ok T && scope_ok T.
 Definition tables_ok (T : tables) : bool :=
   ctx_ok T && scope_ok T && shapes_ok T && internal_ok T
   && status_eqb (sd_init_status (t_scope T)) Enabled
-  && t_to_graph_user_requested T.
+  && t_to_graph_user_requested T
+  && t_disabled_check T
+  && negb (t_dnc_skips_art T) && negb (t_unspec_skips_art T) && negb (t_convert_skips_art T).
 
 (* ---- replaying an event log on a stack: every pop removes the object the log says,
         every observation sees the object the log says ---- *)
@@ -124,26 +126,49 @@ Definition user_converted (k : kind) (dyn : bool) (arg : option ctx) (cs : statu
   | _ => False
   end.
 
-Definition obs_spec (k : kind) (dyn : bool) (arg : option ctx) (cs : status) (urconv : bool) (top : ctx) : Prop :=
+(* the call itself enters no context: the function sees the context of its call site *)
+Definition enters_nothing (k : kind) (urconv : bool) : Prop :=
+  match k with
+  | KPlain | KArtifact => True
+  | KConvert _ _ MNull => urconv = false
+  | KScope false | KLambdaScope false => True
+  | _ => False
+  end.
+
+(* status a wrapper establishes for what it calls, when that is fixed by the wrapper alone *)
+Definition layer_status (l : kind) : option status :=
+  match l with
+  | KDoNotConvert => Some Disabled
+  | KUnspec => Some Unspecified
+  | _ => None
+  end.
+
+Definition obs_spec (k : kind) (outer : list kind) (dyn : bool) (arg : option ctx) (cs : status) (urconv : bool) (top : ctx) : Prop :=
   (k = KDoNotConvert -> cst top = Disabled)
   /\ (k = KUnspec -> cst top = Unspecified)
   /\ (forall c, k = KWith c -> arg = Some top)
   /\ (forall c cbd ur, k = KInternal c cbd ur -> eff_status arg cs = Disabled -> cst top = Disabled)
   /\ (forall c ur, k = KInternal c false ur -> eff_status arg cs = Unspecified -> cst top = Unspecified)
   /\ (user_converted k dyn arg cs -> urconv = true)
-  /\ (urconv = true -> cst top = Enabled).
+  /\ (urconv = true -> cst top = Enabled)
+  (* stacked decorators *)
+  /\ (enters_nothing k urconv -> cst top = cs)
+  /\ (forall ur rc, k = KConvert ur rc MNull -> cs = Disabled -> urconv = false)
+  /\ (forall pre l s, outer = pre ++ [l] -> layer_status l = Some s -> cs = s).
 
-Definition obs_true (k : kind) (dyn : bool) (arg : option ctx) (cs : status) (urconv : bool) (top : ctx) : Prop := True.
+Definition obs_true (k : kind) (outer : list kind) (dyn : bool) (arg : option ctx) (cs : status) (urconv : bool) (top : ctx) : Prop := True.
 
-Definition ev_ok (F : kind -> bool -> option ctx -> status -> bool -> ctx -> Prop) (e : event) : Prop :=
+Definition obs_pred := kind -> list kind -> bool -> option ctx -> status -> bool -> ctx -> Prop.
+
+Definition ev_ok (F : obs_pred) (e : event) : Prop :=
   match e with
-  | EvObs o => F (ob_kind o) (ob_dyn o) (ob_arg o) (ob_call_status o) (ob_urconv o) (ob_top o)
+  | EvObs o => F (ob_kind o) (ob_outer o) (ob_dyn o) (ob_arg o) (ob_call_status o) (ob_urconv o) (ob_top o)
   | _ => True
   end.
 
 (* f, started in st, leaves the stack and the failure flag as they were, only allocates,
    and its log replays on the initial stack back to the initial stack *)
-Definition good (F : kind -> bool -> option ctx -> status -> bool -> ctx -> Prop) (f : M) (st : state) : Prop :=
+Definition good (F : obs_pred) (f : M) (st : state) : Prop :=
   exists new,
     tr (snd (f st)) = new ++ tr st
     /\ stk (snd (f st)) = stk st
